@@ -22,6 +22,12 @@ func VerifRepoDump(r rule.Repository) string {
 	sb.WriteString("known:")
 
 	for _, kr := range repo.knownRules {
+		if kr == nil {
+			sb.WriteString(" <nil rule>")
+
+			continue
+		}
+
 		fmt.Fprintf(&sb, " %s@%s#%x", kr.ID(), kr.SrcID(), kr.(*ruleImpl).hash[:4]) //nolint:forcetypeassert
 	}
 
